@@ -104,7 +104,7 @@ func runParent() int {
 		entries = entries[:len(entries)-1]
 	}
 	run.Rule("inputs per (entry point, protocol) = pure function of (seed, tier): (i) every byte string of length 0-1 and (thorough) 2, fills of length 0-64 with 00/FF/counter; " +
-		"(iv) structurally valid frames with 600 KiB - 1 MiB method names, header values, string and binary arguments (larger than the bounded buffers on the way); (ii) structured mutations of valid fixture frames built with the reference codec (every Frugal and Thrift size field set to 0,1,2,3,len-1,len+1,7FFFFFFF,80000000,FFFFFFFF; version byte; truncation at every offset with and without a consistent frame size; duplicate/missing/non-numeric _opid; _timeout extremes; method name; message type) - all of them in thorough, a stratified PRNG sample in quick; " +
+		"(v) on the stream entry points one run of 8-16 MiB of a repeated small unit (00000000, a minimal frame with an empty header block, a frame the receiver skips) per protocol; (iv) structurally valid frames with 600 KiB - 1 MiB method names, header values, string and binary arguments (larger than the bounded buffers on the way); (ii) structured mutations of valid fixture frames built with the reference codec (every Frugal and Thrift size field set to 0,1,2,3,len-1,len+1,7FFFFFFF,80000000,FFFFFFFF; version byte; truncation at every offset with and without a consistent frame size; duplicate/missing/non-numeric _opid; _timeout extremes; method name; message type) - all of them in thorough, a stratified PRNG sample in quick; " +
 		"(iii) PRNG byte flips and splices. Each input is logged, delivered to a receiver living in a child process, and followed by a well-formed canary whose handling is verified. distinct = entry point x protocol x mutation class x delivery variant, counted when at least one such input was delivered")
 	run.Assume("Apache Thrift, nats.go, the embedded nats-server, go-stomp and net/http are trusted; the STOMP broker is verif/rig's; a child that runs out of memory is excluded (memory amplification is not part of the statement)")
 	run.Assume("the panic signature is the first frame of the panicking goroutine inside github.com/Workiva/frugal/lib/go (function name, no line)")
@@ -273,7 +273,7 @@ func runParent() int {
 			best.Where = "-"
 		}
 		what := fmt.Sprintf("%s: %s [%s] after input #%d (%s, %s, %d bytes, delivery %s); %d occurrence(s) in this run; %s",
-			best.Entry, describe(best), best.Where, best.Idx, best.Class, best.Proto, len(best.Hex)/2, best.Mode, len(cs), best.Confirm)
+			best.Entry, describe(best), best.Where, best.Idx, best.Class, best.Proto, inputSize(best.Hex), best.Mode, len(cs), best.Confirm)
 		if n := len(best.Hex); n > 8192 {
 			best.Hex = fmt.Sprintf("%s...(%d bytes in all: %s; regenerate with --replay from entry point, protocol, index, seed and tier)", best.Hex[:1024], n/2, summarize(best.Hex))
 		}
@@ -291,6 +291,17 @@ func runParent() int {
 	}
 	code := run.Finish()
 	return code
+}
+
+// inputSize is the length in bytes of a logged input ("rle:<unit>*<n>" or hex).
+func inputSize(h string) int {
+	if strings.HasPrefix(h, "rle:") {
+		if k := strings.Index(h, "*"); k > 4 {
+			n, _ := strconv.Atoi(h[k+1:])
+			return n * (k - 4) / 2
+		}
+	}
+	return len(h) / 2
 }
 
 // summarize describes a big input by its runs of one repeated byte.
@@ -317,6 +328,8 @@ func describe(c crash) string {
 		return "the receiver goroutine " + c.Msg + " returned; later well-formed messages are never served"
 	case "blocked":
 		return "the receiver is parked for good: " + c.Msg
+	case "cause":
+		return "the connection was closed but the cause was not reported properly: " + c.Msg
 	case "wrong":
 		return "the well-formed canary after the input was not handled: " + c.Msg
 	}
@@ -591,7 +604,12 @@ func classify(j job, l *logged, exit int, timedOut bool, tail, stderr string) cr
 		c.Sig = fmt.Sprintf("C05:canary-failed:%s", j.entry)
 		if strings.HasPrefix(c.Msg, "[") {
 			if k := strings.Index(c.Msg, "]"); k > 1 {
-				c.Sig += ":" + c.Msg[1:k]
+				if tag := c.Msg[1:k]; strings.HasPrefix(tag, "cause-") {
+					c.Kind = "cause"
+					c.Sig = fmt.Sprintf("C05:close-cause:%s:%s", j.entry, tag)
+				} else {
+					c.Sig += ":" + tag
+				}
 			}
 		}
 	case exit == exitStall || timedOut:
